@@ -18,10 +18,11 @@ INFO = dict(
     bounds=dict(
         quick="H1: fully symbolic raw files of 0..10 bytes (no structure imposed: decoys, overlapping headers, header at offset 0 / "
         "at EOF, key 0x00 are all inside the quantifier) x key configuration {defaults 69/2e/00, caller list of two symbolic keys, "
-        "all-keys mode (7..8 bytes)} x read-buffer size {2, 5, 8}, BytesIO and OS-file models; H2: the real 8192-byte buffer: concrete filler of "
+        "all-keys mode (7..8 bytes)} x read-buffer size {2, 5, 8}, BytesIO and OS-file models; H4: two candidate blocks under two tried keys in "
+        "both file orders (default list: every pair of the three keys; caller list: two symbolic keys): key priority decides; H2: the real 8192-byte buffer: concrete filler of "
         "up to 3 buffers with the block at a symbolic offset in {0,1} u [8192-9, 8192+2] u [16384-9, 16384+2] u end-of-file positions, "
-        "enumerated key in {69, 2e, 00, a7}, symbolic protocol value and 6 symbolic neighbour bytes on each side (decoys allowed: the "
-        "oracle is the definition); H3: PE scaffold with the block in its section, raw and as XorEncoded stage (symbolic nonce, stubs 0/5)",
+        "enumerated key in {69, 2e, 00, a7}, symbolic protocol value and 2 symbolic neighbour bytes on each side (decoys allowed: the "
+        "oracle is the definition); H3: PE scaffold with the block in its section, raw and as XorEncoded stage (stub 5; the nonce is symbolic in the thorough tier)",
         thorough="H1 up to 12 bytes, buffers {1,2,3,5,8,13}; H2 more offsets and two filler patterns; H3 stubs 0/5/64",
     ),
     outside="fully symbolic filler at real size; files longer than 3 buffers; the 2nd..nth candidate of iter_beacon_config_blocks; the "
@@ -146,6 +147,46 @@ def h_small(N, B, keymode, osfile):
     return body
 
 
+def h_priority(B, keymode, osfile):
+    """two candidate blocks under two different tried keys: file order is the reverse of key priority in one of the two
+    symbolic arrangements, so the key-priority rule (and not file order) must decide"""
+    def body(ctx):
+        kw = {}
+        if keymode == "default":
+            keys = [0x69, 0x2E, 0x00]
+            ia = sym_int("first_block_key", 0, 2)
+            ib = sym_int("second_block_key", 0, 2)
+            ia, ib = (concretize(ia), concretize(ib)) if not is_native() else (ia, ib)
+            ka, kb = keys[ia], keys[ib]
+        else:
+            k1, k2 = sym_bytes("key1", 1), sym_bytes("key2", 1)
+            kw["xor_keys"] = [V.unwrap(k1), V.unwrap(k2)] if not is_native() else [V.to_native(k1), V.to_native(k2)]
+            keys = [k1.cells[0], k2.cells[0]]
+            swap = sym_int("swap", 0, 1)
+            swap = concretize(swap) if not is_native() else swap
+            ka, kb = (keys[1], keys[0]) if swap else (keys[0], keys[1])
+        gap = sym_bytes("gap", 3)
+        blk = lambda k, v: [(c ^ k) if isinstance(k, int) else z3.simplify(z3.BitVecVal(c, 8) ^ k) for c in list(HDR) + [v, 0, 0]]  # noqa: E731
+        cells = gap.cells[:1] + blk(ka, 1) + gap.cells[1:2] + blk(kb, 2) + gap.cells[2:]
+        F = SymBytes(cells)
+        if is_native():
+            saved = utils.io
+            utils.io = native_io(B)
+        else:
+            I.set_override(UTILS, "io", io_shim(B))
+            I.stubs[pe.find_mz_offset] = lambda *a, **k: None
+        try:
+            kind, r = outcome(BeaconConfig.from_file, mkfile(F, osfile), **kw)
+        finally:
+            if is_native():
+                utils.io = saved
+            else:
+                I.clear_override(UTILS, "io")
+                I.stubs.pop(pe.find_mz_offset, None)
+        check_result(ctx, F.cells, keys, kind, r)
+    return body
+
+
 def h_lemma(N):
     def body(ctx):
         r = call(pe.find_mz_offset, ModelBytesIO(sym_bytes("file", N)))
@@ -170,7 +211,7 @@ def small_block(key, proto_cells, extra=8):
     return [(c ^ key) if isinstance(c, int) else z3.simplify(c ^ z3.BitVecVal(key, 8)) for c in plain]
 
 
-def h_real(total, offsets, key, pattern, osfile, keymode="default"):
+def h_real(total, offsets, key, pattern, osfile, keymode="default", NB=2):
     """file of `total` bytes of concrete filler with a short block at a symbolic offset (one of `offsets`), 6 symbolic bytes
     on each side of it; real io.DEFAULT_BUFFER_SIZE"""
     def body(ctx):
@@ -181,16 +222,16 @@ def h_real(total, offsets, key, pattern, osfile, keymode="default"):
         else:
             ctx.assume(mkbool(z3.Or(*[o.e == x for x in offsets])))
             o = concretize(o)
-        proto = sym_bytes("proto", 2)
+        proto = SymBytes([0] + sym_bytes("proto", 1).cells)  # (the 7th header byte is the high byte of the protocol value)
         blk = small_block(key, proto.cells)
         cells = filler(total, pattern)
-        left = sym_bytes("left", 6).cells
-        right = sym_bytes("right", 6).cells
-        lo = max(0, o - 6)
-        cells[lo:o] = left[6 - (o - lo):]
+        left = sym_bytes("left", NB).cells
+        right = sym_bytes("right", NB).cells
+        lo = max(0, o - NB)
+        cells[lo:o] = left[NB - (o - lo):]
         end = min(total, o + len(blk))
         cells[o:end] = blk[:end - o]
-        r_end = min(total, end + 6)
+        r_end = min(total, end + NB)
         cells[end:r_end] = right[:r_end - end]
         kw = {}
         keys = [0x69, 0x2E, 0x00]
@@ -233,9 +274,9 @@ def concrete_candidates(cells, keys, near):
 # ----------------------------------------------------------------------------------------------------------------------
 
 
-def h_container(arch, key, stublen, encoded):
+def h_container(arch, key, stublen, encoded, sym_nonce=False):
     def body(ctx):
-        proto = sym_bytes("proto", 2)
+        proto = SymBytes([0] + sym_bytes("proto", 1).cells)
         blk = small_block(key, proto.cells, extra=24)
         raw = blk + [0x33] * (PEB.RAW - len(blk))
         img, lay = PEB.build_image(arch, 64, 1, b"MZRE", b"PE\0\0", [1, 2, 3, 4], [(0x1000, 0x40)], 0, [raw])
@@ -246,7 +287,8 @@ def h_container(arch, key, stublen, encoded):
             kw["xor_keys"] = [bytes([key])]
             keys = [key]
         if encoded:
-            nonce = sym_bytes("nonce", 4)
+            # (a symbolic nonce makes every encoded byte symbolic: thorough tier only; C09 decides detection for symbolic nonces)
+            nonce = sym_bytes("nonce", 4) if sym_nonce else SymBytes([0x5A, 0xC3, 0x11, 0x7E])
             stub = SymBytes([0x90] * (stublen - 3) + [0xFF, 0xFF, 0xFF]) if stublen >= 3 else SymBytes([0x90] * stublen)
             data = XE.encode(plain, nonce, stub)
         else:
@@ -277,6 +319,11 @@ def instances(tier):
     for N in ((7,) if q else (7, 8)):
         out.append(Instance("H1 file=%d buffer=8 keys=all" % N, h_small(N, 8, "all", False), dict(kind="H1", file=N, buffer=8, keys="all", cost=10 ** 9),
                             split=12, max_loop=3000, timeout=1400))
+    for B in ((5, 8) if q else (1, 3, 5, 8, 13)):
+        for km in ("default", "custom"):
+            for osf in ((False, True) if B == 5 else (False,)):
+                out.append(Instance("H4 two blocks under two keys buffer=%d keys=%s %s" % (B, km, "osfile" if osf else "bytesio"), h_priority(B, km, osf),
+                                    dict(kind="H4", buffer=B, keys=km, file_model="os" if osf else "BytesIO", cost=5000), split=10, max_loop=3000))
     for N in ((0, 7, 10) if q else (0, 7, 10, 12, 40, 87)):
         out.append(Instance("lemma find_mz_offset None on %d bytes" % N, h_lemma(N), dict(kind="lemma", file=N, cost=10), max_loop=3000))
     # H2
@@ -291,8 +338,15 @@ def instances(tier):
             for osf in ((False,) if q and key != 0x00 else (False, True)):
                 out.append(Instance("H2 real buffer key=%02x filler=%d %s" % (key, pattern, "osfile" if osf else "bytesio"),
                                     h_real(total, offs, key, pattern, osf), dict(kind="H2", key=key, filler=pattern, total=total, offsets=offs,
-                                                                                  file_model="os" if osf else "BytesIO", cost=10 ** 8),
+                                                                                  neighbours=2, file_model="os" if osf else "BytesIO", cost=10 ** 8),
                                     split=6, max_loop=20000, timeout=1400))
+            # (thorough) four symbolic bytes on each side
+            for o6 in (() if q else (B - 3, 2 * B - 1)):
+                if key != 0x69 or pattern:
+                    continue
+                out.append(Instance("H2 real buffer key=%02x filler=%d offset=%d four symbolic neighbours" % (key, pattern, o6),
+                                    h_real(total, [o6], key, pattern, False, NB=4), dict(kind="H2", key=key, filler=pattern, total=total, offsets=[o6],
+                                                                                           neighbours=4, cost=10 ** 9), split=10, max_loop=20000, timeout=1400))
     out.append(Instance("H2 real buffer key=a7 custom list", h_real(B + 60, [0, B - 6, B - 1, B], 0xA7, 0, False, "custom"),
                         dict(kind="H2", key=0xA7, keys="custom", cost=10 ** 7), split=6, max_loop=20000))
     # H3
@@ -301,14 +355,15 @@ def instances(tier):
             out.append(Instance("H3 PE raw %s key=%02x" % (arch, key), h_container(arch, key, 0, False), dict(kind="H3", arch=arch, key=key, encoded=False, cost=10 ** 6),
                                 split=6, max_loop=20000))
             for st in ((5,) if q else (0, 5, 64)):
-                out.append(Instance("H3 XorEncoded %s key=%02x stub=%d" % (arch, key, st), h_container(arch, key, st, True),
-                                    dict(kind="H3", arch=arch, key=key, encoded=True, stub=st, cost=10 ** 7), split=6, max_loop=20000))
+                out.append(Instance("H3 XorEncoded %s key=%02x stub=%d" % (arch, key, st), h_container(arch, key, st, True, sym_nonce=not q and st == 5),
+                                    dict(kind="H3", arch=arch, key=key, encoded=True, stub=st, symbolic_nonce=(not q and st == 5), cost=10 ** 7), split=6, max_loop=20000))
     return out
 
 
 def prechecks(tier, seed):
     """scaffold sanity against the real extractor (concrete instances of H2/H3)"""
     n = 0
+    bad = []
     B = _io.DEFAULT_BUFFER_SIZE
     for key in (0x69, 0x00, 0xA7):
         for o in (0, B - 3, 2 * B - 1):
@@ -316,7 +371,15 @@ def prechecks(tier, seed):
             blk = small_block(key, [0, 8])
             cells[o:o + len(blk)] = blk
             kw = {} if key != 0xA7 else dict(all_xor_keys=True)
-            r = BeaconConfig.from_bytes(bytes(cells), **kw)
-            assert r.xorkey == bytes([key]) and r.raw_settings["SETTING_PROTOCOL"] == 8 and r.raw_settings["SETTING_PORT"] == 443, (key, o)
-            n += 1
-    return dict(validated=n)
+            # (a concrete smoke run of the scaffold; what the extractor does with it is decided by the instances, so a deviation
+            # here is recorded, not raised: it must surface as a replayed VIOLATION of an instance, not as a harness error)
+            try:
+                r = BeaconConfig.from_bytes(bytes(cells), **kw)
+                ok = r.xorkey == bytes([key]) and r.raw_settings["SETTING_PROTOCOL"] == 8 and r.raw_settings["SETTING_PORT"] == 443
+            except Exception:  # noqa: BLE001
+                ok = False
+            if ok:
+                n += 1
+            else:
+                bad.append((key, o))
+    return dict(validated=n, scaffold_deviations=bad)
